@@ -1,10 +1,11 @@
 #!/bin/bash
 # usage: scratchmut.sh <patch.diff> <dev -f regex> [timeout]  — runs the dev engine on a scratch copy of /repo's working tree with the patch applied
 set -e
+p=$(realpath "$1")
 d=$(mktemp -d /tmp/scratchmut.XXXX)
 trap 'cd /; rm -rf "$d"' EXIT
 cd /repo && git ls-files -z | xargs -0 cp --parents -t "$d"
 cp /repo/verif_*.go "$d"/
-cd "$d" && patch -p1 -s < "$1"
+cd "$d" && patch -p1 -s < "$p"
 BIN=${SCTPVC:-/verif/bin/sctpvc}
 $BIN dev -repo "$d" -f "$2" -t "${3:-20}" 2>&1
